@@ -137,12 +137,17 @@ CURATED_LITS = ["Literal[1]", "Literal[1, True]", "Literal[0, False]", "Literal[
 _MOD_COUNTER = [0]
 
 
+def xexec(src: str, ns: dict):
+    """exec without inheriting this module's `from __future__ import annotations` (annotations must stay objects)"""
+    exec(compile(src, "<c11-schema>", "exec", dont_inherit=True), ns)
+
+
 def make_module(extra_src: str = "") -> types.ModuleType:
     _MOD_COUNTER[0] += 1
     name = f"_c11_schema_{_MOD_COUNTER[0]}"
     mod = types.ModuleType(name)
     sys.modules[name] = mod
-    exec(SCHEMA_SRC + extra_src, mod.__dict__)
+    xexec(SCHEMA_SRC + extra_src, mod.__dict__)
     return mod
 
 
@@ -247,7 +252,7 @@ class Site:
         if entry == "typevar":
             # expr is a comma separated constraint list
             self.snippet = (f"TV{n} = TypeVar('TV{n}', {expr})\n@dataclass\nclass H{n}(Generic[TV{n}], DataClassDictMixin):\n    x: TV{n}\n")
-            exec(self.snippet, ns)
+            xexec(self.snippet, ns)
             self.tp = ns[f"TV{n}"]
             self.members = tuple(NoneType if c is None else c for c in self.tp.__constraints__)
             self.holder = ns[f"H{n}"]
@@ -264,7 +269,7 @@ class Site:
                 raise ValueError("not a union: " + expr)
             if entry == "field":
                 self.snippet = f"@dataclass\nclass H{n}(DataClassDictMixin):\n    x: {expr}\n"
-                exec(self.snippet, ns)
+                xexec(self.snippet, ns)
                 self.holder = ns[f"H{n}"]
         self.hname = f"H{n}"
         self._dec = self._enc = None
@@ -327,7 +332,7 @@ class Members:
                 hn = f"HM{_MOD_COUNTER[0]}"
                 ns = self.mod.__dict__
                 ns["_m_tmp"] = m
-                exec(f"@dataclass\nclass {hn}(DataClassDictMixin):\n    x: _m_tmp\n", ns)
+                xexec(f"@dataclass\nclass {hn}(DataClassDictMixin):\n    x: _m_tmp\n", ns)
                 self.mixenc[k] = ns[hn]
             h = self.mixenc[k]
             return outcome(lambda: h(x=v).to_dict()["x"])
@@ -712,10 +717,280 @@ def literal_part(ctx: vlib.Ctx, mod, mem: Members):
     corr(ctx, "literal-encode-model-vs-impl", lecases, leinfo, "lecase", ["lecase_ok", "lecase_ok_model", "lecase_ok_ref"])
 
 
+# ---------------------------------------------------------------------------
+# several union / optional positions inside ONE shape
+# ---------------------------------------------------------------------------
+# name: (holes, slot->hole, type template | None, class snippet | None, input template, decode extractors,
+#        value template, encode extractors).  {0},{1} = hole types, {a},{b} = slot expressions, {n} = serial.
+SHAPES = {
+    "tuple2": (2, [0, 1], "tuple[{0}, {1}]", None, "[{a}, {b}]", ["r[0]", "r[1]"], "({a}, {b})", ["r[0]", "r[1]"]),
+    "tuple3": (2, [0, 1], "tuple[{0}, str, {1}]", None, "[{a}, 's', {b}]", ["r[0]", "r[2]"], "({a}, 's', {b})", ["r[0]", "r[2]"]),
+    "vartuple": (1, [0, 0], "tuple[{0}, ...]", None, "[{a}, {b}]", ["r[0]", "r[1]"], "({a}, {b})", ["r[0]", "r[1]"]),
+    "list": (1, [0, 0], "list[{0}]", None, "[{a}, {b}]", ["r[0]", "r[1]"], "[{a}, {b}]", ["r[0]", "r[1]"]),
+    "dictval": (1, [0, 0], "dict[str, {0}]", None, "{{'p': {a}, 'q': {b}}}", ["r['p']", "r['q']"], "{{'p': {a}, 'q': {b}}}", ["r['p']", "r['q']"]),
+    "namedtuple": (2, [0, 1], "NT{n}", "from typing import NamedTuple\nclass NT{n}(NamedTuple):\n    a: {0}\n    b: {1}\n",
+                   "[{a}, {b}]", ["r.a", "r.b"], "NT{n}({a}, {b})", ["r[0]", "r[1]"]),
+    "typeddict": (2, [0, 1], "TD{n}", "from typing import TypedDict\nclass TD{n}(TypedDict):\n    a: {0}\n    b: {1}\n",
+                  "{{'a': {a}, 'b': {b}}}", ["r['a']", "r['b']"], "{{'a': {a}, 'b': {b}}}", ["r['a']", "r['b']"]),
+    "dataclass": (2, [0, 1], "DH{n}", "@dataclass\nclass DH{n}(DataClassDictMixin):\n    a: {0}\n    b: {1}\n",
+                  "{{'a': {a}, 'b': {b}}}", ["r.a", "r.b"], "DH{n}(a={a}, b={b})", ["r['a']", "r['b']"]),
+    "dict_of_tuple": (2, [0, 1], "dict[str, tuple[{0}, {1}]]", None, "{{'k': [{a}, {b}]}}", ["r['k'][0]", "r['k'][1]"],
+                      "{{'k': ({a}, {b})}}", ["r['k'][0]", "r['k'][1]"]),
+    "tuple_of_lists": (2, [0, 1], "tuple[list[{0}], list[{1}]]", None, "[[{a}], [{b}]]", ["r[0][0]", "r[1][0]"],
+                       "([{a}], [{b}])", ["r[0][0]", "r[1][0]"]),
+    "list_of_tuple": (2, [0, 1], "list[tuple[{0}, {1}]]", None, "[[{a}, {b}]]", ["r[0][0]", "r[0][1]"], "[({a}, {b})]", ["r[0][0]", "r[0][1]"]),
+}
+OPT_INNER = ["date", "datetime", "UUID", "Decimal", "DC1", "Color", "List[int]", "List[date]", "Dict[str, int]", "bytes", "int", "str"]
+
+
+class ShapeSite:
+    def __init__(self, mod, shape: str, holes: list[str], entry: str):
+        nh, self.slots, ttpl, snip, self.in_tpl, self.dec_ex, self.val_tpl, self.enc_ex = SHAPES[shape]
+        self.shape, self.holes, self.entry, self.mod = shape, holes, entry, mod
+        ns = mod.__dict__
+        n = _MOD_COUNTER[0] = _MOD_COUNTER[0] + 1
+        self.n = n
+        for _f in getattr(typing, "_cleanups", []):
+            _f()
+        h = holes + [holes[-1]] * (2 - len(holes))
+        self.snippet = snip.format(h[0], h[1], n=n) if snip else ""
+        if self.snippet:
+            xexec(self.snippet, ns)
+        self.type_expr = ttpl.format(h[0], h[1], n=n)
+        self.tp = eval(self.type_expr, ns)
+        self.hole_tps = [eval(x, ns) for x in holes]
+        if shape == "dataclass":
+            self.entry = "dataclass"
+        self.holder = ""
+        if self.entry == "field":
+            hs = f"@dataclass\nclass HS{n}(DataClassDictMixin):\n    x: {self.type_expr}\n"
+            xexec(hs, ns)
+            self.snippet += hs
+            self.holder = f"HS{n}"
+        self._dec = self._enc = None
+
+    def slot_info(self, i):
+        tp = self.hole_tps[self.slots[i]]
+        members = list(typing.get_args(tp))
+        path = "optional" if (len(members) == 2 and NoneType in members) else "union"
+        return tp, members, path
+
+    def decode(self, x):
+        ns = self.mod.__dict__
+        if self.entry == "dataclass":
+            return self.tp.from_dict(x)
+        if self.entry == "field":
+            return ns[self.holder].from_dict({"x": x}).x
+        if self._dec is None:
+            self._dec = ns["BasicDecoder"](self.tp)
+        return self._dec.decode(x)
+
+    def encode(self, v):
+        ns = self.mod.__dict__
+        if self.entry == "dataclass":
+            return v.to_dict()
+        if self.entry == "field":
+            return ns[self.holder](x=v).to_dict()["x"]
+        if self._enc is None:
+            self._enc = ns["BasicEncoder"](self.tp)
+        return self._enc.encode(v)
+
+    def fmt(self, tpl, a, b):
+        return tpl.format(a=a, b=b, n=self.n)
+
+    def replay_base(self):
+        return {"src": SCHEMA_SRC + self.snippet, "entry": "shape-" + self.entry, "type_expr": self.type_expr, "holder": self.holder}
+
+
+def permuted(rng, expr_members: list[str]) -> list[str]:
+    p = list(expr_members)
+    for _ in range(6):
+        rng.shuffle(p)
+        if p != expr_members:
+            break
+    return p
+
+
+def gen_hole(rng, encode: bool) -> list[str]:
+    """member expressions of one hole"""
+    if rng.random() < 0.4:
+        return [rng.choice(OPT_INNER), "None"] if rng.random() < 0.7 else ["None", rng.choice(OPT_INNER)]
+    n = rng.choice([2, 2, 3, 3, 4])
+    ns = rng.randint(0, min(n, 4))
+    pool_n = NONSCALAR_EXPRS + ([] if encode else DECODE_ONLY_EXPRS)
+    ms = rng.sample(SCALAR_EXPRS, ns) + rng.sample(pool_n, n - ns)
+    rng.shuffle(ms)
+    return ms
+
+
+def hole_expr(ms: list[str]) -> str:
+    if len(ms) == 2 and ms[1] == "None":
+        return f"Optional[{ms[0]}]"
+    return f"Union[{', '.join(ms)}]"
+
+
+def ucase_str(members, d, observed, expected, cls, accept):
+    cms = []
+    for i, m in enumerate(members):
+        if m in SCALARS:
+            r = ("ok", None) if m is NoneType else accept(m, d)
+            cms.append(f"CS {KIND[m]} {to_ouv(r)}")
+        else:
+            cms.append(f"CN {i} {to_ouv(accept(m, d))}")
+    return f"UC [{'; '.join(cms)}] {to_uv(d)} {to_ouv(observed)} {to_ouv(expected)} {DEVCLASS[cls]}"
+
+
+def pcase_str(members, v, observed, expected, menc):
+    cms, outs = [], []
+    for k, mm in enumerate(members):
+        ident = is_identity_packer(mm)
+        r = ("ok", v) if ident else menc(mm, v)
+        cname = "NoneType" if mm is NoneType else getattr(typing.get_origin(mm) or mm, "__name__", repr(mm))
+        cms.append(f"CP {coq_str(cname)} {'None' if ident else f'(Some {k + 1}%nat)'} {to_ouv(r)}")
+        if (type(v) is mm) if ident else r[0] == "ok":
+            outs.append(r)
+    disj = all(same(a, b) for a in outs for b in outs)
+    return f"PC [{'; '.join(cms)}] {to_uv(v)} {to_ouv(observed)} {to_ouv(expected)} {'true' if disj else 'false'}", disj
+
+
+ORDER_SENSITIVE = ["'1'", "'1.5'", "1.5", "True", "1", "[1]", "['1']", "'2020-01-01'", "0", "'a'", "None", "{'x': 1}", "2.0", "''"]
+
+
+def shapes_part(ctx: vlib.Ctx, mod, mem: Members):
+    rng = ctx.rng
+    ucases, uinfo, ocases, oinfo, pcases, pinfo, oecases, oeinfo = [], [], [], [], [], [], [], []
+    names = list(SHAPES)
+    expr_of = {repr(eval(e, mod.__dict__)): e for e in SCALAR_EXPRS + NONSCALAR_EXPRS}
+    expr_of[repr(NoneType)] = "None"
+    n_shapes = ctx.budget(330, 1500)
+    for it in range(n_shapes):
+        shape = names[it % len(names)]
+        encode = it % 2 == 1
+        nh = SHAPES[shape][0]
+        h0 = gen_hole(rng, encode)
+        # the second hole: the same members in another order (typing equality ignores the order), or independent
+        h1 = permuted(rng, h0) if rng.random() < 0.6 else gen_hole(rng, encode)
+        holes = [hole_expr(h0), hole_expr(h1)][:nh]
+        entry = rng.choice(["codec", "codec", "field"])
+        try:
+            site = ShapeSite(mod, shape, holes, entry)
+        except Exception as e:
+            ctx.notes.append(f"shape not built: {shape} {holes} via {entry}: {type(e).__name__}: {e}"[:200])
+            continue
+        infos = [site.slot_info(i) for i in range(2)]
+        ctx.hist("shape_kind", shape + ("/enc" if encode else "/dec"))
+        ctx.hist("shape_slot_paths", "+".join(i[2] for i in infos) + ("/permuted" if (nh == 2 and sorted(h0) == sorted(h1) and h0 != h1) else ""))
+        mixin = site.entry in ("field", "dataclass")
+        for rep_i in range(ctx.budget(3, 4)):
+            if not encode:
+                a = rng.choice(ORDER_SENSITIVE if rng.random() < 0.6 else DECODE_INPUTS)
+                b = a if rng.random() < 0.5 else rng.choice(ORDER_SENSITIVE if rng.random() < 0.6 else DECODE_INPUTS)
+                inx = site.fmt(site.in_tpl, a, b)
+                whole = outcome(site.decode, eval(inx, mod.__dict__))
+                exps, ds = [], []
+                for i, dx in enumerate((a, b)):
+                    d = eval(dx, mod.__dict__)
+                    ds.append(d)
+                    exps.append(ref_union_decode(infos[i][1], d, lambda m, d=d: mem.accept(m, d)))
+                base = dict(site.replay_base(), op="decode", input=inx)
+                if whole[0] == "raise" and all(e[0] == "ok" for e in exps):
+                    ctx.count(("shape", shape, "raise-unexpected"))
+                    ctx.fail(f"decode {site.type_expr} via {site.entry} <- {inx}: raised {whole[1]}, property says every position accepts "
+                             f"({', '.join(show(e) for e in exps)})", dict(base, extract=None, observed=show(whole), expected="ok"),
+                             {"kind": "other", "op": "decode", "shape": shape})
+                    continue
+                for i in range(2):
+                    tp, members, path = infos[i]
+                    d, expected = ds[i], exps[i]
+                    accept = lambda m, d=d: mem.accept(m, d)
+                    if whole[0] == "raise":
+                        if expected[0] == "raise":
+                            ctx.count(("shape", shape, path, "raise"))
+                        continue
+                    observed = outcome(lambda: eval(site.dec_ex[i], {"r": whole[1]}))
+                    cls = classify_decode(members, d, observed, expected, accept) if path == "union" else ("agree" if same(observed, expected) else "other")
+                    ctx.count(("shape", shape, i, tuple(member_label(m) for m in members), type(d).__name__, cls))
+                    ctx.hist("shape_decode_outcome", cls)
+                    if cls != "agree":
+                        ctx.fail(f"decode {site.type_expr} via {site.entry} <- {inx}: position {site.dec_ex[i]} ({holes[site.slots[i]]}) got {show(observed)}, "
+                                 f"property says {show(expected)}", dict(base, extract=site.dec_ex[i], observed=show(observed), expected=show(expected)),
+                                 {"kind": cls, "op": "decode"} if cls != "other" else {"kind": cls, "op": "decode", "shape": shape})
+                    if observed[0] != "ok":
+                        continue
+                    if path == "union":
+                        ucases.append(ucase_str(members, d, observed, expected, cls, accept))
+                        uinfo.append((site.type_expr, site.entry, inx, site.dec_ex[i], show(observed), show(expected), cls))
+                    else:
+                        inner = [m for m in members if m is not NoneType][0]
+                        ocases.append(f"OC {to_ouv(accept(inner, d))} {to_uv(d)} {to_ouv(observed)}")
+                        oinfo.append((site.type_expr, site.entry, inx, site.dec_ex[i], show(observed)))
+            else:
+                vxs, vs, js = [], [], []
+                ok = True
+                for i in range(2):
+                    tp, members, path = infos[i]
+                    cands = []
+                    for m in members:
+                        cands += ENCODE_VALUES.get(expr_of.get(repr(m), ""), [])
+                    if NoneType in members and rng.random() < 0.45:
+                        cands = ["None"]
+                    if not cands:
+                        ok = False
+                        break
+                    vx = rng.choice(cands)
+                    v = eval(vx, mod.__dict__)
+                    j = next((k for k, mm in enumerate(members) if conforms(mm, v)), None)
+                    if j is None:
+                        ok = False
+                        break
+                    vxs.append(vx); vs.append(v); js.append(j)
+                if not ok:
+                    continue
+                menc = lambda m, v: mem.encode(m, v, mixin)
+                exps = [("ok", None) if infos[i][1][js[i]] is NoneType else menc(infos[i][1][js[i]], vs[i]) for i in range(2)]
+                if any(e[0] != "ok" for e in exps):
+                    continue
+                valx = site.fmt(site.val_tpl, vxs[0], vxs[1])
+                whole = outcome(lambda: site.encode(eval(valx, mod.__dict__)))
+                base = dict(site.replay_base(), op="encode", input=valx)
+                if whole[0] == "raise":
+                    ctx.count(("shape-enc", shape, "raise-unexpected"))
+                    ctx.fail(f"encode {site.type_expr} via {site.entry} <- {valx}: raised {whole[1]}, property says "
+                             f"[{', '.join(show(e) for e in exps)}]", dict(base, extract=None, observed=show(whole), expected="ok"),
+                             {"kind": "other", "op": "encode", "shape": shape})
+                    continue
+                for i in range(2):
+                    tp, members, path = infos[i]
+                    v, expected = vs[i], exps[i]
+                    observed = outcome(lambda: eval(site.enc_ex[i], {"r": whole[1]}))
+                    cls = classify_encode(site, members, js[i], v, observed, expected, menc) if path == "union" else ("agree" if same(observed, expected) else "other")
+                    ctx.count(("shape-enc", shape, i, tuple(member_label(m) for m in members), type(v).__name__, cls))
+                    ctx.hist("shape_encode_outcome", cls + ("/None" if v is None else ""))
+                    if cls != "agree":
+                        ctx.fail(f"encode {site.type_expr} via {site.entry} <- {valx}: position {site.enc_ex[i]} ({holes[site.slots[i]]}) got {show(observed)}, "
+                                 f"member {member_label(members[js[i]])} gives {show(expected)}",
+                                 dict(base, extract=site.enc_ex[i], observed=show(observed), expected=show(expected)),
+                                 {"kind": cls, "op": "encode"} if cls != "other" else {"kind": cls, "op": "encode", "shape": shape})
+                    if observed[0] != "ok":
+                        continue
+                    if path == "union":
+                        c, disj = pcase_str(members, v, observed, expected, menc)
+                        pcases.append(c)
+                        pinfo.append((site.type_expr, site.entry, valx, site.enc_ex[i], show(observed), show(expected), cls, disj))
+                    else:
+                        inner = [m for m in members if m is not NoneType][0]
+                        oecases.append(f"OC {to_ouv(menc(inner, v))} {to_uv(v)} {to_ouv(observed)}")
+                        oeinfo.append((site.type_expr, site.entry, valx, site.enc_ex[i], show(observed)))
+    corr(ctx, "shape-union-decode-model-vs-impl", ucases, uinfo, "ucase", ["ucase_ok", "ucase_ok_model", "ucase_ok_ref", "ucase_ok_cls"], stale_fun="ucase_stale")
+    corr(ctx, "shape-optional-decode-model-vs-impl", ocases, oinfo, "ocase", ["ocase_ok"])
+    corr(ctx, "shape-union-encode-model-vs-impl", pcases, pinfo, "pcase", ["pcase_ok", "pcase_ok_model", "pcase_ok_disj"], stale_fun="pcase_stale")
+    corr(ctx, "shape-optional-encode-model-vs-impl", oecases, oeinfo, "ocase", ["ocase_ok"])
+
+
 THEOREMS = [
     "C11_union_decode_partial", "C11_union_deviation_char", "C11_union_shadow_result", "C11_union_none_refuted",
     "C11_union_shadow_refuted", "C11_no_cross_coercion", "C11_scalars_first_no_shadow", "C11_union_result_from_member",
-    "C11_union_raises_iff", "C11_none_member_never_raises", "C11_deterministic", "C11_union_dedup_invisible", "C11_nested_union_partial", "C11_opt",
+    "C11_union_raises_iff", "C11_none_member_never_raises", "C11_deterministic", "C11_union_dedup_invisible", "C11_nested_union_partial", "C11_shape_positions", "C11_opt",
     "C11_union_encode_partial", "C11_union_encode_refuted", "C11_literal_full", "C11_literal_encode_full",
     "C11_literal_returns_listed", "C11_literal_accepts_listed",
 ]
@@ -755,6 +1030,7 @@ def run(ctx: vlib.Ctx):
     decode_part(ctx, mod, mem)
     encode_part(ctx, mod, mem)
     literal_part(ctx, mod, mem)
+    shapes_part(ctx, mod, mem)
 
 
 # ---------------------------------------------------------------------------
@@ -767,13 +1043,23 @@ def replay(rep: dict) -> int:
         return 2
     mod = types.ModuleType("_c11_replay")
     sys.modules["_c11_replay"] = mod
-    exec(rep["src"], mod.__dict__)
+    xexec(rep["src"], mod.__dict__)
     ns = mod.__dict__
     entry, expr = rep["entry"], rep["type_expr"]
     v = eval(rep["input"], ns)
     op = rep.get("op", "decode")
 
     def call():
+        if entry.startswith("shape-"):
+            tp = eval(expr, ns)
+            if entry == "shape-dataclass":
+                r = tp.from_dict(v) if op == "decode" else v.to_dict()
+            elif entry == "shape-field":
+                h = ns[rep["holder"]]
+                r = h.from_dict({"x": v}).x if op == "decode" else h(x=v).to_dict()["x"]
+            else:
+                r = ns["BasicDecoder"](tp).decode(v) if op == "decode" else ns["BasicEncoder"](tp).encode(v)
+            return eval(rep["extract"], {"r": r}) if rep.get("extract") else "ok"
         if entry in ("field", "typevar"):
             h = ns[rep["holder"]]
             return h.from_dict({"x": v}).x if op == "decode" else h(x=v).to_dict()["x"]
@@ -783,7 +1069,12 @@ def replay(rep: dict) -> int:
             return ns["BasicDecoder"](tp).decode([v])[0] if op == "decode" else ns["BasicEncoder"](tp).encode([v])[0]
         return ns["BasicDecoder"](tp).decode(v) if op == "decode" else ns["BasicEncoder"](tp).encode(v)
 
-    got = show(outcome(call))
+    got_o = outcome(call)
+    got = show(got_o)
+    if entry.startswith("shape-") and not rep.get("extract"):
+        print(f"{op} {expr} via {entry} <- {rep['input']}: got {got if got_o[0] == 'raise' else 'a result'}; property expects a result")
+        print("REPRODUCED" if got_o[0] == "raise" else "not reproduced")
+        return 1 if got_o[0] == "raise" else 0
     print(f"{op} {expr} via {entry} <- {rep['input']}: got {got}; recorded observed {rep['observed']}; property expects {rep['expected']}")
     norm = lambda s: re.sub(r"_c11_\w+\.", "", re.sub(r"^raise .*", "raise", s))
     if norm(got) != norm(rep["expected"]):
